@@ -37,3 +37,11 @@ Example C16_deferred_upgrade_refuted :
   let wr := {| pmode := Immediate; pops := [OWrite] |} in
   run [bad; wr] [0; 0; 1; 1; 1; 0] (init [bad; wr]) = None.
 Proof. exact deferred_read_then_write_busy. Qed.
+
+(* the one statement outside any transaction that SQLite refuses at once when
+   another connection holds a lock (the change of journal mode at connect
+   time) is retried by the CURRENT source (read from /repo by tools/anchors.py) *)
+Theorem C16_busy_immediate_retried : forallb snd busy_immediate = true.
+Proof. exact busy_immediate_retried. Qed.
+Check C16_busy_immediate_retried : forallb snd busy_immediate = true.
+Print Assumptions C16_busy_immediate_retried.
